@@ -108,7 +108,7 @@ CFG = dict(
         "state words are arbitrary uint32 values, arguments arbitrary uint32 (Set/Unset) / uint16 (SetLast) values; the half-independence theorems take flag arguments below 2^16",
         "a thread executes one mutator call; schedules are arbitrary finite lists of thread ids (any length, any order, unfair ones included); complete = every call has returned",
     ],
-    level_text="34 theorems. Over the Gallina model of c2/state.go for ALL words: Set/Unset keep the group half, SetLast keeps the flag half and sets the group; the complete truth table "
+    level_text="39 theorems. Over the Gallina model of c2/state.go for ALL words: Set/Unset keep the group half, SetLast keeps the flag half and sets the group; the complete truth table "
                "of every predicate over all 2^16 flag states (vm_compute over the whole finite domain, lifted to all 2^32 words by independence lemmas): closed implies not ready, "
                "not receivable, closing; the channel request protocol and single consumption of the 'updated' notice. Over the interleaving semantics, instantiated with the atomic "
                "shape TRANSLATED on every run from the current state.go: no_lost_update (for every list of concurrent Set/Unset/SetLast calls and every complete schedule the final "
@@ -119,6 +119,8 @@ CFG = dict(
                "with one ChannelCanStop poll on a running channel (all words, all schedules: exhaustive exploration of the 64 words made of protocol bits by vm_compute, sound for all "
                "schedules by induction, lifted to all 2^32 words by a simulation lemma): SetChannel answers as alone, the poller never acts on a notice with the value of another request "
                "(the value is published before the notice), the request is never lost and its notice is consumed once; likewise ChannelCanStart; refuted for the swapped write order. "
+               "Outside state.go: the word is also driven through the connHost methods of *Session and *proxyClient and through Session.close (model ops, differential + oracle), "
+               "and atomics2v reads from every file of c2 that no value-receiver method writes the word and that every statement list dropping the request also drops its notice. "
                "The sequential model is tied to /repo by running every flag state through every method of the real type; the concurrent "
                "theorems are tied by the translator, by the theorem that the translated commit functions ARE Set/Unset/SetLast of the sequential model, and by a goroutine stress run.",
     level_note="Proof is about the model and about the translated atomic shape; the sequential tie is exhaustive on the flag half (65536 rows) and sampled on the group half. "
